@@ -291,6 +291,58 @@ func vfcRun(scn *vfcScn) (*vfcResult, error) {
 			res.Notes = append(res.Notes, "quiesce-timeout")
 		}
 	}
+	// session 5: the schedule may release the parked refresh WHILE a batch is in flight (event kind "p" at a request
+	// count): the client's update goroutine installs the new slot map beside the running node batches (routes are
+	// pinned, node objects may be closed under them), then waits for the next inform - which a MOVED answer of the
+	// same batch may send at once (a refresh started by the batch itself, parked again by the double). When the
+	// attempt has ended: wait until the released request was served (`r`), make sure its map is installed (the
+	// goroutine is parked in a NEW request, or takes a kick), log `R` - before the next Put reads the map.
+	handledReleases := 0
+	settleInstall := func() {
+		for d.ParkReleases() > handledReleases {
+			handledReleases++
+			cnt := func() (r, R int) {
+				tr, _, _ := d.Snapshot()
+				for _, e := range tr {
+					switch e {
+					case "r":
+						r++
+					case "R":
+						R++
+					}
+				}
+				return
+			}
+			served := false
+			for i := 0; i < 2000 && !served; i++ {
+				if r, R := cnt(); r > R {
+					served = true
+				} else {
+					time.Sleep(time.Millisecond)
+				}
+			}
+			if !served {
+				res.Notes = append(res.Notes, "release-not-served")
+				continue
+			}
+			ok := false
+			for i := 0; i < 200 && !ok; i++ {
+				if d.WaitParked(10 * time.Millisecond) {
+					ok = true // parked in a new request: the released one was installed before it was sent
+					if i == 0 {
+						res.Notes = append(res.Notes, "refresh-started-by-the-batch") // a MOVED answer informed the idle goroutine
+					}
+				} else if VerifTryKickUpdate(c, 10*time.Millisecond) {
+					ok = d.WaitParked(2 * time.Second)
+				}
+			}
+			if !ok {
+				res.Notes = append(res.Notes, "repark-timeout")
+			}
+			d.Log("R")
+			res.Notes = append(res.Notes, "refresh-in-flight")
+		}
+	}
 	finish := func(at *vfcAttempt, b common.CmdBatcher, err error) {
 		at.OK = err == nil
 		at.Err = vfcErrClass(err)
@@ -302,6 +354,7 @@ func vfcRun(scn *vfcScn) (*vfcResult, error) {
 			settle(at, b, true)
 		}
 		res.Attempts = append(res.Attempts, *at)
+		settleInstall()
 	}
 
 	switch scn.Mode {
@@ -533,6 +586,36 @@ func vfcMonitor(scn *vfcScn, res *vfcResult) []vfcViol {
 						inFlight := dispPos[bl] < putPos[hi] && (!received || putPos[hi] < rp) // hi was put while lo's batch was dispatched, not yet received
 						if inFlight && p1 < pos && lastPos[sk] < pos {
 							cause = "redirect-followed-at-receive-while-newer-batch-in-flight"
+						}
+					}
+					// session 5 (C19-F3): the older command's batch FAILED because the node pipeline it was pending on was reset by
+					// a MOVED/ASK answer to ANOTHER batch (node_pipeline.go failPending: connection shut down, every pending request
+					// completed with an error); its bytes were already on the aborted connection and the node executed them after a
+					// newer batch, which went out on a new connection. Read off the trace: lo's batch ended with an error, was not
+					// redirected itself, and its node had answered a redirect to another batch before lo executed.
+					if w == "per-key-inversion" && pipelined && idBatch[lo] != idBatch[hi] && !redirected[idBatch[lo]] {
+						failedLo := false
+						for _, at := range res.Attempts {
+							if at.Batch == idBatch[lo] && !at.OK {
+								failedLo = true
+							}
+						}
+						resetBy := -1
+						for i, ev := range res.Trace {
+							if i >= pos {
+								break
+							}
+							p := strings.Split(ev, ":")
+							if (p[0] == "q" || p[0] == "t") && len(p) == 5 && (p[4][0] == 'm' || p[4][0] == 'a') && p[1] == fmt.Sprint(idRoute[lo]) {
+								var id int
+								fmt.Sscan(p[2], &id)
+								if idBatch[id] != idBatch[lo] {
+									resetBy = idBatch[id]
+								}
+							}
+						}
+						if failedLo && resetBy >= 0 && lastPos[sk] < pos {
+							w, cause = "pipelined-reset-reorder", "older-batch-failed-by-node-pipeline-reset-newer-batch-on-new-connection"
 						}
 					}
 					out = append(out, vfcViol{w, fmt.Sprintf("key %s: cmd %d (batch %d, routed to node %d) took effect after cmd %d (batch %d, routed to node %d)",
@@ -839,8 +922,28 @@ func vfcLines(tag string, scn *vfcScn, res *vfcResult) (string, []string) {
 		mode += "?" // adversarial schedule: the quiet line is not compared
 	}
 	fmt.Fprintf(&sb, "c19 %s %s %d %s %s", tag, mode, scn.N, vfutil.HexList(hexKeys), strings.Join(own, ","))
+	// session 5: a multi-key command is put with ALL its keys (`P:<bid>:<cmd>:<k+k+…>:<node>`); the driver recomputes every
+	// answer to it with ClusterMulti.answerM (CROSSSLOT, TRYAGAIN during a migration, ASK only when every key has gone)
+	multi := map[string]string{}
+	if scn.Mode != "txn" && scn.Mode != "txnpipe" {
+		for _, b := range scn.Batches {
+			for _, cm := range b {
+				if len(cm.Keys) > 1 {
+					var ks []string
+					for _, k := range cm.Keys {
+						ks = append(ks, fmt.Sprint(k))
+					}
+					multi[fmt.Sprint(cm.ID)] = strings.Join(ks, "+")
+				}
+			}
+		}
+	}
 	for _, e := range res.Trace {
 		sb.WriteByte(' ')
+		if p := strings.Split(e, ":"); p[0] == "P" && len(p) == 5 && multi[p[2]] != "" {
+			p[3] = multi[p[2]]
+			e = strings.Join(p, ":")
+		}
 		sb.WriteString(e)
 	}
 	if id, split := vfcRouteSplit(scn, res); split {
@@ -976,6 +1079,7 @@ func vfcGen(r *vfutil.Rand, name string) *vfcScn {
 	// half of the scenarios have single-key commands only: those runs are also replayed through the
 	// operational model (ClusterExec), whose groups are keys as soon as the schedule has an ASK phase
 	single := r.Bool()
+	multiHeavy := !single && !realTxn && r.Chance(1, 3)
 	names := []string{"set", "append", "lpush", "sadd", "hset"}
 	id := 1
 	nb := r.Range(2, 6)
@@ -1010,7 +1114,11 @@ func vfcGen(r *vfutil.Rand, name string) *vfcScn {
 				case x < 20:
 					batch = append(batch, vfcCmd{id, "vffb", []int{vfutil.Pick(r, ks)}}) // GETKEYS empty: args[0] fallback
 				case x < 25 && len(ks) >= 2 && !single:
-					batch = append(batch, vfcCmd{id, "mset", []int{ks[0], ks[1]}}) // one slot
+					mk := []int{ks[0], ks[1]}
+					if len(ks) >= 3 && r.Bool() {
+						mk = append(mk, ks[2]) // three keys of one slot
+					}
+					batch = append(batch, vfcCmd{id, "mset", mk}) // one slot
 				case x < 26 && nt >= 2 && !single && r.Chance(1, 2):
 					o := tagKeys[(t+1)%nt]
 					batch = append(batch, vfcCmd{id, "mset", []int{ks[0], o[0]}}) // two slots: one node (server CROSSSLOT) or two (Put refuses)
@@ -1023,7 +1131,21 @@ func vfcGen(r *vfutil.Rand, name string) *vfcScn {
 					continue
 				}
 			}
-			if len(ks) >= 2 && !single && r.Chance(1, 12) {
+			if len(ks) >= 2 && multiHeavy && r.Chance(1, 2) {
+				// session 5: scenarios dense in multi-key commands (MSET of 2-3 keys / SMOVE of one slot) so that they
+				// meet the migration of their slot: TRYAGAIN at the owner and at the importing node, ASK with every key gone
+				if r.Bool() {
+					mk := []int{ks[0], ks[1]}
+					if len(ks) >= 3 && r.Bool() {
+						mk = append(mk, ks[2])
+					}
+					batch = append(batch, vfcCmd{id, "mset", mk})
+				} else {
+					a := r.Intn(len(ks))
+					bb := (a + 1 + r.Intn(len(ks)-1)) % len(ks)
+					batch = append(batch, vfcCmd{id, "smove", []int{ks[a], ks[bb]}})
+				}
+			} else if len(ks) >= 2 && !single && r.Chance(1, 12) {
 				a := r.Intn(len(ks))
 				bb := (a + 1 + r.Intn(len(ks)-1)) % len(ks)
 				batch = append(batch, vfcCmd{id, "smove", []int{ks[a], ks[bb]}})
@@ -1127,6 +1249,14 @@ func vfcGen(r *vfutil.Rand, name string) *vfcScn {
 	if !txn && r.Chance(1, 5) {
 		b := r.Intn(nb)
 		scn.MidPut[fmt.Sprintf("%d.%d", b, r.Intn(len(scn.Batches[b])))] = true
+	}
+	if !realTxn && scn.Window <= 1 && !scn.Empty && r.Chance(1, 4) {
+		// (not with a node the client does not know: a MOVED to it makes the client refresh SYNCHRONOUSLY inside the
+		// batch, and whether the released asynchronous map or that one is installed last cannot be read off the trace)
+		// session 5: the parked refresh is released at a request count - while a batch is in flight (between route
+		// pinning and the send of a later node batch, or between two answers); sequential use (window 1): with a
+		// window the same refresh is C19-F1
+		scn.During = append(scn.During, vfdoubles.Sched{At: r.Intn(total + 1), Ev: vfdoubles.MigEv{Kind: "p"}})
 	}
 	_ = total
 	return scn
@@ -1328,9 +1458,23 @@ func vfcOne(s *vfutil.Session, idx int, scn *vfcScn) (nops int) {
 			s.Count("note_" + f[0])
 		}
 	}
+	multiIDs := map[string]bool{}
+	for _, b := range scn.Batches {
+		for _, cm := range b {
+			if len(cm.Keys) > 1 {
+				multiIDs[fmt.Sprint(cm.ID)] = true
+			}
+		}
+	}
 	redirects := 0
 	for _, e := range res.Trace {
 		p := strings.Split(e, ":")
+		if p[0] == "q" && len(p) == 5 && multiIDs[p[2]] {
+			s.Count("multikey_answer_" + map[byte]string{'x': "exec", 'm': "moved", 'a': "ask", 'e': "err"}[p[4][0]])
+			if p[3] == "1" {
+				s.Count("multikey_answer_under_asking")
+			}
+		}
 		switch p[0] {
 		case "q", "t":
 			o := p[len(p)-1]
@@ -1398,8 +1542,16 @@ func TestVerifC19(t *testing.T) {
 		if err == nil {
 			var f struct {
 				Replay struct {
-					Scenario string `json:"scenario"`
+					Scenario      string `json:"scenario"`
+					FlushScenario string `json:"flush_scenario"`
 				} `json:"replay"`
+			}
+			if json.Unmarshal(b, &f) == nil && f.Replay.FlushScenario != "" {
+				var scn vfcFlushScn
+				if json.Unmarshal([]byte(f.Replay.FlushScenario), &scn) == nil {
+					vfcFlushOne(s, "#0", &scn)
+					return
+				}
 			}
 			if json.Unmarshal(b, &f) == nil && f.Replay.Scenario != "" {
 				var scn vfcScn
@@ -1425,6 +1577,7 @@ func TestVerifC19(t *testing.T) {
 		idx += vfcOne(s, idx, &scn)
 		s.Count("src_corpus")
 	}
+	vfcFlushAll(s, &idx) // session 5: the verdict of a flush whose commands the router refuses (vf_c19flush_test.go)
 	rd := vfutil.NewRand(vfutil.Seed() + 77)
 	for i := 0; i < vfutil.Scale(40, 400); i++ {
 		vfcDispatchFault(s, fmt.Sprintf("#%d", idx), rd.Fork())
